@@ -101,6 +101,20 @@ def build_manager(cfg, rnd: random.Random, loads=None, small=False):
     return m
 
 
+def abstract_cfg(m):
+    """The configuration a manager holds, read back from the real objects (what 'the same configuration' means for C17)."""
+    sp = m._simulation_parameters
+    gc = m._geometric_constraints
+    d = {"method": gc.type.name, "pipe": m.pipe_type.name, "fluid": m._fluid.fluid_type.name, "flow": m._design.flow_type.name,
+         "maxbh": sp.max_boreholes, "cont": bool(sp.continue_if_design_unmet), "flow_rate": m._design.V_flow,
+         "limits": (sp.max_EFT_allowable, sp.min_EFT_allowable, sp.max_height, sp.min_height, sp.end_month),
+         "fluid_state": (m._fluid.concentration_percent, m._fluid.temperature), "grout": (m._grout.k, m._grout.rhoCp),
+         "soil": (m._soil.k, m._soil.rhoCp, m._soil.ugt), "bore": (m._borehole.D, m._borehole.r_b),
+         "pipe_geo": (repr(m._pipe.r_in), repr(m._pipe.r_out), m._pipe.s, m._pipe.roughness, repr(m._pipe.k), m._pipe.rhoCp),
+         "geom": {k: v for k, v in vars(gc).items() if k != "type"}, "loads_len": len(m._ground_loads), "loads_head": list(m._ground_loads[:5])}
+    return d
+
+
 def _c17_one(item):
     import_repo()
     import ghedesigner.manager as gm  # noqa: PLC0415
@@ -116,13 +130,15 @@ def _c17_one(item):
             f1 = d / "a.json"
             m.write_input_file(f1)
             data = json.loads(f1.read_text())
-            # key sets of the real file = the model's ToInput
+            # key sets of the real file = the model's ToInput (a difference alone is conformance drift, not a verdict)
+            drift = []
             for sec, ks in keys.items():
                 if sec == "version":
                     continue
                 got = set(data.get(sec, {}).keys())
                 if got != set(ks):
-                    bad.append(f"section {sec}: written keys {sorted(got)} differ from the model's {sorted(ks)}")
+                    drift.append(f"section {sec}: written keys {sorted(got)} differ from the model's {sorted(ks)}")
+            cfg0 = abstract_cfg(m)
             nulls = [f"{sec}.{k}" for sec, v in data.items() if isinstance(v, dict) for k, x in v.items() if x is None]
             if nulls:
                 bad.append(f"null written for {nulls}")
@@ -146,15 +162,30 @@ def _c17_one(item):
             else:
                 f2 = d / "b.json"
                 captured["m"].write_input_file(f2)
+                cfg1 = abstract_cfg(captured["m"])
+                diff = [f"{k}: API {cfg0[k]!r} -> reloaded {cfg1[k]!r}" for k in cfg0 if not _same(cfg0[k], cfg1[k])]
+                if diff:
+                    bad.append(f"RoundTrip: the reloaded configuration differs from the one the API built: {diff[:3]}")
                 if f1.read_bytes() != f2.read_bytes():
                     a, b = json.loads(f1.read_text()), json.loads(f2.read_text())
                     diff = [f"{s}.{k}: {a[s].get(k)!r} -> {b[s].get(k)!r}" for s in a if isinstance(a[s], dict) for k in set(a[s]) | set(b.get(s, {})) if a[s].get(k) != b.get(s, {}).get(k)]
                     bad.append(f"RoundTrip: re-written file differs: {diff[:4]}")
     except Exception as ex:  # noqa: BLE001
         bad.append(f"raised {type(ex).__name__}: {ex}")
+        drift = []
     finally:
         shutil.rmtree(d, ignore_errors=True)
-    return bad
+    return {"bad": bad, "drift": drift}
+
+
+def _same(a, b):
+    if isinstance(a, float) and isinstance(b, float):
+        return a == b or abs(a - b) <= 1e-12 * max(abs(a), abs(b))      # min/max rotation are stored in radians and written in degrees
+    if isinstance(a, (tuple, list)) and isinstance(b, (tuple, list)):
+        return len(a) == len(b) and all(_same(x, y) for x, y in zip(a, b))
+    if isinstance(a, dict) and isinstance(b, dict):
+        return a.keys() == b.keys() and all(_same(a[k], b[k]) for k in a)
+    return a == b
 
 
 def _c17_design(item):
@@ -222,10 +253,17 @@ def run_c17() -> int:
         for it in items:
             by.setdefault((it["cfg"]["method"], it["cfg"]["perimeter"], it["cfg"]["pipe"]), []).append(it)
         items = [x for k in sorted(by) for x in rnd.sample(by[k], 6)]
-    for it, bad in zip(items, parallel_map(_c17_one, items, chunksize=4)):
+    ndrift = 0
+    for it, r in zip(items, parallel_map(_c17_one, items, chunksize=4)):
         chk.nontrivial.add(tuple(sorted(it["cfg"].items())))
-        if bad:
-            chk.violation(f"C17 configuration {it['cfg']}: {bad[0]}", {"cfg": it["cfg"], "bad": bad})
+        if r["bad"]:
+            chk.violation(f"C17 configuration {it['cfg']}: {r['bad'][0]}", {"cfg": it["cfg"], "bad": r["bad"], "drift": r["drift"]})
+        elif r["drift"]:
+            ndrift += 1
+            chk.note("conformance_drift_sample", r["drift"][:2])
+    chk.note("conformance_drift", ndrift)
+    if ndrift:
+        print(f"NOTE: {ndrift} configuration(s) are written with other keys than the model's although C17's predicates hold on the real files")
     chk.traces += len(items)
     chk.evaluations += len(items)
     chk.sample({"cfg": items[0]["cfg"], "written_keys": items[0]["keys"]})
